@@ -371,16 +371,34 @@ def fix_tree(tree):
 
 
 def fix_scenario(s):
+    longest = [0]
+
     def walk(steps):
         for st in steps:
             if st.get("op") in ("tree", "outside") and "tree" in st:
                 st["tree"] = fix_tree(st["tree"])
+                if st.get("op") == "tree":
+                    longest[0] = max([longest[0]] + [len(n.get("c", [])) for n in st["tree"]])
             for a in st.get("actors", []):
                 if "tree" in a:
                     a["tree"] = fix_tree(a["tree"])
+                    longest[0] = max([longest[0]] + [len(n.get("c", [])) for n in a["tree"]])
             if "then" in st:
                 walk(st["then"])
+
+    def cap(steps):
+        # contents of hundreds of bytes under a block size of one or two bytes make thousands of
+        # blocks per file (one scenario's trace reached half a gigabyte): at most 40 blocks per file
+        for st in steps:
+            for b in [st, st.get("base")] + list(st.get("actors", [])):
+                if isinstance(b, dict) and b.get("op") == "backup" and "M" in b and b["M"] * 40 < longest[0]:
+                    b["M"] = (longest[0] + 39) // 40
+            if "then" in st:
+                cap(st["then"])
+
     walk(s["steps"])
+    if s.get("mode") != "big" and longest[0] > 80:
+        cap(s["steps"])
     return s
 
 
@@ -650,7 +668,9 @@ def run_tlc_trace(tpath, workdir, idx, timeout=1800):
     """Validate one trace file. Returns (list of violations, number of events)."""
     env = dict(os.environ)
     env["TRACE"] = tpath
-    env["JAVA_TOOL_OPTIONS"] = "-Xss1g -Xmx3g -XX:ParallelGCThreads=2 -Dtlc2.tool.queue.IStateQueue=StateDeque"
+    # (the whole trace is held in memory as TLA+ values: a long one needs a larger heap)
+    heap = "3g" if os.path.getsize(tpath) < 150_000_000 else "10g"
+    env["JAVA_TOOL_OPTIONS"] = f"-Xss1g -Xmx{heap} -XX:ParallelGCThreads=2 -Dtlc2.tool.queue.IStateQueue=StateDeque"
     md = os.path.join(workdir, f"md{idx}")
     vout = os.path.join(workdir, f"viol{idx}.json")
     env["VIOLOUT"] = vout
